@@ -104,6 +104,14 @@ CLAIMED = {
             "Decision tables and provenance facts of the executor: try_nullify's 3-row table and, for every call of it, that the type used to nullify a value is the type the value was completed with (list item vs list, field definition); argument-coercion errors and null leaves follow the field/type nullability; data = result.ok(); every field error (39 sites) is built with the enclosing position's path or the list-index-extended path, paths are extended by the response key / list index exactly once and reversed once; DoesFragmentTypeApply as a table over ExtendedType; CollectFields' skip/include defaults, grouping by response key in an insertion-ordered map, first-visit / type-condition guards and unchanged recursion arguments; eval_if_arg; result coercion of the five built-in scalars and enums.",
             "Response equality with a reference executor, merging of sub-selections and resolver behaviour are not decided. The rules read async fns from typed HIR (names intact) and plain fns from MIR.",
             "decision-table extraction (MIR path enumeration), dominating-edge facts, and access-path / local-identity provenance over typed HIR of the async executor functions", False),
+    "C18": ("other",
+            "Typing provenance of executable documents: the definition handed to Field::new is schema.type_field(&self.ty, &ast.name) for the same AST field; sub-selection sets are typed by definition.ty.inner_named_type(), the fragment's type condition, or the parent type (decision table of new_inline_fragment), root selection sets by schema.root_operation; Schema::type_field as a decision table (explicit fields on Object/Interface, __typename on Object/Interface/Union, __schema/__type only on the query root, error cases); the root_fields/all_fields iterators enter a named fragment only on first insertion into fragments_seen, always enter inline fragments, and (only all_fields) descend into field sub-selections; and the per-operation scope of the validated_fragments memo (variables written only in the constructor that creates the empty memo, one context per operation).",
+            "The validity guarantees of the statement (acyclic spreads, defined variables, leaf/composite selections) are validation verdicts and are not decided, except the memo-scope condition that makes `every used variable is defined` hold for fragments shared between operations.",
+            "local-identity provenance over typed HIR, decision tables from MIR path enumeration, dominating-edge facts, who-writes on a struct field", False),
+    "C11": ("other",
+            "Location provenance of the CST->AST conversion (only location-carrying constructors; at all 28 with_location sites the syntax node and the converted value come from the same CST node; the conversion's own file id), the Name span (NAME node, first token text; start offset and tag-preserving file id stored; location() rebuilt from them), the unit of LineColumn.column (must derive from a character count, not from a byte offset - the byte-column defect was found by this rule and repaired), the separator set of the line counter (not ariadne's seven-separator table; only LF and CR are compared - also found and repaired), and the source of JSON error locations.",
+            "Decides provenance and units, not the numeric values of positions. Later stages (schema/executable) clone the located nodes; that they do is not re-derived.",
+            "access-path provenance over rustc MIR (symbolic operands), who-calls on location-less constructors, backward may-derive slice for units and line separators", False),
 }
 
 NOT_APPLICABLE = {
